@@ -210,23 +210,39 @@ pub fn run(tier: &str, seed: u64, widen: bool) -> Report {
             // stage or kind of failure) the exact site is the label
             let label = if v.class.starts_with("panic@") && *kind != "well-typed" && *kind != "probe" {
                 {
-                    // crate + the kind of failure (start of the panic message, digit runs collapsed): the
-                    // sites are too many to list one by one, the kinds are few (`known_findings.json`)
+                    // crate + the KIND of failure. The type checker leaves erroneous expressions
+                    // untyped and later code trips over them at far too many sites to list one by one,
+                    // but the kinds of failure are few (`known_findings.json` lists them); a panic whose
+                    // message is none of these generic kinds keeps its own text, so that a new
+                    // `unreachable!()`, `panic!(..)` or `.expect(..)` is still reported
                     let rest = &v.class["panic@".len()..];
                     let krate = rest.split('/').next().unwrap_or("?");
                     let msg = rest.splitn(2, ':').nth(1).unwrap_or("");
-                    // `byte index 5 is out of bounds of `<source text>`` and the like: drop the quoted input
-                    let msg = msg.split(" of `").next().unwrap_or(msg);
-                    // `main::lambda#main #7 : `void` is not weak replaceable by …`: drop the location prefix
-                    let msg = if let Some(p) = msg.find(" : `") { &msg[p + 3..] } else { msg };
-                    let mut kind_of = String::new();
-                    for c in msg.chars().take(40) {
-                        if c == '#' && kind_of.ends_with('#') {
-                            continue;
+                    let kind_of: String = if msg.contains("was not given a type") {
+                        "expression left without a type".into()
+                    } else if msg.starts_with("assertion failed") || msg.starts_with("assertion `") {
+                        "assertion failed".into()
+                    } else if msg.contains("Option::unwrap()") {
+                        "unwrap on None".into()
+                    } else if msg.contains("no entry found for key") {
+                        "no entry found for key".into()
+                    } else if msg.contains("index out of bounds") || msg.contains("out of bounds of") || msg.contains("is out of bounds") {
+                        "index out of bounds".into()
+                    } else if msg.contains("not yet implemented") {
+                        "not yet implemented".into()
+                    } else if msg.contains("is not weak") {
+                        "is not weak replaceable".into()
+                    } else {
+                        let mut k = String::new();
+                        for c in msg.chars().take(40) {
+                            if c == '#' && k.ends_with('#') {
+                                continue;
+                            }
+                            k.push(c);
                         }
-                        kind_of.push(c);
-                    }
-                    format!("panic-on-invalid-input@{krate}:{}", kind_of.trim())
+                        k.trim().to_string()
+                    };
+                    format!("panic-on-invalid-input@{krate}:{kind_of}")
                 }
             } else {
                 v.class.clone()
